@@ -189,10 +189,15 @@ def cat : List String → String
   | s :: r => s ++ cat r
 
 /-- `convertSystemPrompt`: the non-empty text parts, joined. -/
+def sysBlockParts : List SysBlock → List String
+  | [] => []
+  | .text s :: r => if s != "" then s :: sysBlockParts r else sysBlockParts r
+  | .other :: r => sysBlockParts r
+
 def sysParts : Sys → List String
   | .absent => []
   | .str s => if s != "" then [s] else []
-  | .blocks l => l.filterMap (fun b => match b with | .text s => if s != "" then some s else none | .other => none)
+  | .blocks l => sysBlockParts l
   | .other => []
 
 def convertSystem (s : Sys) : List OMsg :=
